@@ -9,7 +9,7 @@
                            object `Get` returns and whatever (recycled) memory `Malloc` returns, every
                            instance observes exactly what it observes when run alone;
     * no_cross_bytes       what an instance observes does not depend on anything the others do;
-    * get_pure             `Get` is a function of the loaded map and changes nothing, so any number of
+    * get_pure_partial     `Get` is a function of the loaded map and changes nothing, so any number of
                            concurrent Gets return the sequential answers (with the regenerated fact that
                            the Go methods assign to nothing reachable from the receiver).
   What the model CANNOT exhibit (named runtime behaviour, DESIGN §7): a data race inside an operation,
@@ -83,14 +83,29 @@ theorem isolation_generic {K : Kind} (G : Good K) (evs : List (Ev K)) (i : Nat) 
     ((Sys.empty : Sys K).run evs).outputs i = alone i evs :=
   isolation_of_good G evs i
 
-/-- **isolation** for systems that mix instances of every kind — DefaultReader, BufferReader,
+/-- **isolation** for systems that mix instances of every MODELLED kind — DefaultReader, BufferReader,
     SkipDecoder, BytesSkipDecoder, ReaderSkipDecoder, DefaultWriter, BufferWriter (`All` = the sum of
     the seven kinds) — sharing one object pool per pooled type and ONE buffer pool: for every history,
     i.e. every interleaving of whole operations of any number of instances, every pooled object `Get`
     may return and every recycled or fresh memory (any content) `Malloc` may return, each instance
     observes exactly what it observes when it runs alone.
     (Writers: the user fills every region it is handed, as BufferWriter does; an unfilled `Malloc`
-    region is dirty memory by contract and is outside the statement.) -/
+    region is dirty memory by contract and is outside the statement.)
+
+    WHERE THE PROOF CONTENT IS (the property is partial; this theorem is about whole operations only):
+    * definitional (`Good.ofEq … rfl`): kDR, kBR, kBSD — their `step` ignores the pool's memory and
+      their `New…` overwrites every field, so in the MODEL there is no channel between instances; the
+      theorem then only says the scheduler bookkeeping is right.  That a real DefaultReader never shows
+      memory below its fill level is C04/C09 and Tie B (this family runs on the real mcache), not this
+      theorem.  kSD is nearly so: the only content is that a stale `rn` left in the pool is never read
+      (`sdNext_congr`).
+    * real content: kRSD (retained buffer + dirty pool memory never reach a result: `rsdNext_spec` via
+      `skipTplAt_sim`), kDW and kBW (flushed bytes do not depend on the dirty memory of any Malloc:
+      `wr_step_ref` over C05's simulation), and the generic part (`Good.sum`, `isolation_of_good`,
+      the pool invariant `pool_always_fresh`).
+    * NOT in `All`: `Binary.ReadBinary` with the shared span cache and the TTHeader codec.  They exist
+      only in the driver (`bin`, `tth` lines) as stateless functions; their sharing (span cache; the
+      writer/reader instance a header call runs on) is exercised by Tie B and the stress run only. -/
 theorem isolation (evs : List (Ev All)) (i : Nat) :
     ((Sys.empty : Sys All).run evs).outputs i = alone i evs :=
   isolation_of_good goodAll evs i
@@ -165,11 +180,16 @@ example : ((((Sys.empty : Sys kDW).run exampleWriters).outputs 2).map
     anything reachable from its receiver -/
 theorem impureGets_nil : Facts.impureGets = [] := by decide
 
-/-- **get_pure**: with that fact, a `Get` is the function `SMap.get` of the loaded state and leaves the
-    state as it is; hence for ANY schedule of Gets by any number of goroutines on one shared map
-    (`StrMap`, and `Str2Str` with its `StrStore`) the map is unchanged afterwards and every goroutine
-    gets, for every key, the answer of the sequential call on the loaded map. -/
-theorem get_pure {V : Type} (h : Bytes → Nat) (m : SMap.StrMap V) (sm : SMap.Str2Str)
+/-- **get_pure_partial**.  PARTIAL, and honest about where the content is: in the model `getS` returns the
+    map unchanged BY CONSTRUCTION and `runGets` is a sequential fold, so the two `runGets` equations below
+    are true by definition (they only spell out "if Get is a function of the loaded state, any schedule
+    of Gets returns the sequential answers").  The real content is (1) the regenerated Tie A fact
+    `Facts.impureGets = []` — none of `StrMap.Get`, `Str2Str.Get`, `StrStore.Get` assigns through its
+    receiver — which is what licenses modelling Get as `getS`, and (2) the many-goroutine stress run and
+    the race-detector run of the `pool` family on the real maps (validation, not proof).
+    Missing for the full statement ("no data race"): a theorem cannot exhibit a race; reads of shared
+    memory by concurrent Gets are race-free in Go exactly because nothing writes, which is fact (1). -/
+theorem get_pure_partial {V : Type} (h : Bytes → Nat) (m : SMap.StrMap V) (sm : SMap.Str2Str)
     (sched : List (Nat × Bytes)) :
     Facts.impureGets = [] ∧
     runGets (getS h) m sched = (m, sched.map (fun gk => (gk.1, SMap.get h m gk.2))) ∧
